@@ -210,11 +210,12 @@ func checkEnc(scen string, in EncIn) []*mc.Violation {
 }
 
 func lineValues(maxLines int) []string {
-	lines := []string{"a", "", " ind", "b c"}
+	lines := []string{"a", "", " ind", "b c", "\ttab", "#c", "k: v"}
+	sym := []string{"0", "1", "2", "3", "4", "5", "6"}
 	var out []string
-	seqs := gen.AllStrings([]string{"0", "1", "2", "3"}, maxLines)
+	seqs := gen.AllStrings(sym, maxLines)
 	for _, s := range seqs {
-		if len(s) == 0 || s[0] == '1' || s[0] == '2' {
+		if len(s) == 0 || s[0] == '1' || s[0] == '2' || s[0] == '4' {
 			continue // first line must be non-empty and not indented to be representable at all
 		}
 		var ls []string
@@ -228,7 +229,7 @@ func lineValues(maxLines int) []string {
 }
 
 func Run(r *mc.Run) {
-	r.Rule = "all values that are sequences of 1..4/5 lines over {a, empty, indented, 'b c'} with a representable first line, with and without a trailing newline; all ordered pairs of a 60-value subset as two-field paragraphs; every paragraph the reader itself returns on the C07 base documents; encoder call sequences of 1..3 paragraphs over 7 representative paragraphs (and one slice call). Non-trivial = value has more than one line; distinct by construction"
+	r.Rule = "all values that are sequences of 1..4/5 lines over {a, empty, blank-indented, 'b c', tab-indented, '#c', 'k: v'} with a representable first line, with and without a trailing newline; all ordered pairs of a 60-value subset as two-field paragraphs; every paragraph the reader itself returns on the C07 base documents; encoder call sequences of 1..3 paragraphs over 7 representative paragraphs (and one slice call). Non-trivial = value has more than one line; distinct by construction"
 	r.Assume = []string{"values are sequences of text lines without trailing blanks; the first line is non-empty and not indented (otherwise the value is not representable: the reader trims the first line and treats an empty first line as 'starts on the next line')"}
 
 	vals := lineValues(r.Pick(4, 5))
